@@ -53,10 +53,24 @@ func (m *Mint) checkInvoicePaid(ctx context.Context, quoteId string) {
 	case invoice := <-updateChan:
 		if invoice.Settled {
 			m.logInfof("received update from invoice sub. Invoice for mint quote '%v' is PAID", mintQuote.Id)
+			// the notification can arrive after a state poll or a mint request has
+			// already seen the payment: only an UNPAID quote moves to PAID
+			m.mintQuotesMu.Lock()
+			currentQuote, err := m.db.GetMintQuote(mintQuote.Id)
+			if err != nil {
+				m.mintQuotesMu.Unlock()
+				m.logErrorf("could not get mint quote '%v' from db: %v", mintQuote.Id, err)
+				return
+			}
+			if currentQuote.State != nut04.Unpaid {
+				m.mintQuotesMu.Unlock()
+				return
+			}
 			mintQuote.State = nut04.Paid
 			if err := m.db.UpdateMintQuoteState(mintQuote.Id, mintQuote.State); err != nil {
 				m.logErrorf("could not mark mint quote '%v' as PAID in db: %v", mintQuote.Id, err)
 			}
+			m.mintQuotesMu.Unlock()
 			jsonQuote, _ := json.Marshal(mintQuote)
 			m.publisher.Publish(BOLT11_MINT_QUOTE_TOPIC, jsonQuote)
 		}
